@@ -41,7 +41,7 @@ uint64_t stream_key(int conn, int gen, int from_side)
 
 struct Elem
 {
-	enum K { Write, Close, Reconnect, Pause, Handoff } k = Write;
+	enum K { Write, Close, Reconnect, Pause, Handoff, Cancel } k = Write;
 	int64_t sizes[3] = {0, 0, 0};
 	int nbuf = 1;
 	bool nonblocking = false;
@@ -87,6 +87,8 @@ struct Side
 	bool eof = false, reader_dead = false;
 	std::vector<uint8_t> rbuf[3];
 	std::unique_ptr<asio::high_resolution_timer> shadow, past;
+	bool expect_read_abort = false, expect_write_abort = false; // cancel() was called with that operation outstanding
+	std::vector<uint8_t> pollbuf;
 	ReadSpec cur_r;
 	// close bookkeeping
 	bool closed_by_us = false;
@@ -124,6 +126,24 @@ struct Tcp
 	uint64_t step_cap = 0;
 	bool capped = false, livelock = false;
 	int mtuAB = 1475;
+	// a listener that answers whoever connects with bytes no stream of this program contains: connects to it are started
+	// and cancelled right away (cfg "abandon"), and nothing of them may show up on the connection made next
+	std::unique_ptr<tcp::acceptor> decoy;
+	std::vector<std::unique_ptr<tcp::socket>> decoy_socks;
+	std::vector<uint8_t> decoy_junk;
+	void arm_decoy()
+	{
+		if (!decoy || !decoy->is_open() || decoy_socks.size() > 40) return;
+		decoy_socks.emplace_back(new tcp::socket(*nodeB));
+		tcp::socket* sk = decoy_socks.back().get();
+		decoy->async_accept(*sk, [this, sk](error_code const& ec) {
+			++ctx.handlers;
+			if (ec) return;
+			ctx.hit("decoy_accepted");
+			sk->async_write_some(asio::buffer(decoy_junk), [this](error_code const&, std::size_t) { ++ctx.handlers; });
+			arm_decoy();
+		});
+	}
 	struct ConnAttempt { int conn, port, gen; bool done; };
 	std::vector<ConnAttempt> cattempts; // every async_connect issued, to tell an answered connect that never completes
 	bool connect_done[k_max_conns] = {false, false, false};
@@ -152,6 +172,8 @@ struct Tcp
 		{
 			Elem e = s.script.front();
 			if (e.k == Elem::Write && !s.connected) return; // waits for (re)connection
+			// the hand-over comes first, as long as the read it waits for can still complete
+			if (s.handoff_requested && (e.k == Elem::Reconnect || e.k == Elem::Close) && !s.eof && !s.reader_dead && peer(s).offered > s.received) return;
 			if (e.k == Elem::Write && e.need_rx >= 0 && s.received < e.need_rx && !s.eof && !s.reader_dead) return; // a response waits for the request
 			// between arming an accept and its handler the accept-into object may already
 			// carry the next connection: the acceptor side does nothing until the handler ran
@@ -189,8 +211,43 @@ struct Tcp
 					}
 					break;
 				case Elem::Handoff: do_handoff(s); break;
+				case Elem::Cancel: do_cancel(s); break;
 			}
 		}
+	}
+
+	// cancel() on an established socket: whatever is outstanding completes with operation_aborted and is started again;
+	// the connection itself, what is queued, in flight or waiting for retransmission, is not touched
+	void do_cancel(Side& s)
+	{
+		if (!s.connected || !s.sock->is_open()) return;
+		if (s.side == 1 && accept_armed[s.conn]) return;
+		s.expect_read_abort = s.read_pending;
+		s.expect_write_abort = s.write_outstanding;
+		error_code ec;
+		s.sock->cancel(ec);
+		ctx.tr.rec("cancel", {s.conn, s.side}, {now_ns()});
+		ctx.hit("cancel_on_established_socket");
+	}
+
+	// a non-blocking read_some while an asynchronous read is waiting for data: it reports would_block and leaves the
+	// waiting read, and the buffers it was given, alone
+	void poll_read(Side& s)
+	{
+		if (!plan.c("poll_reads", 0) || !s.connected || !s.read_pending || s.cur_r.wait_style || !s.sock->is_open()) return;
+		if (s.side == 1 && accept_armed[s.conn]) return;
+		{
+			// (the harness's flag outlives the library's pending read by the time its handler is queued: what arrives then
+			// is data the poll may legitimately take - no poll unless nothing is there to be taken)
+			error_code aec;
+			if (s.sock->available(aec) != 0 || aec) return;
+		}
+		s.pollbuf.assign(97, 0x5c);
+		error_code ec;
+		std::size_t const n = s.sock->read_some(asio::buffer(s.pollbuf), ec);
+		ctx.hit("poll_while_read_pending");
+		if (!ec || n != 0)
+			throw HarnessError("a polling read_some returned data although an asynchronous read was pending (the harness cannot account for that)");
 	}
 
 	// the connection is moved into a fresh socket object (as a server does when it hands an accepted socket to a session
@@ -231,6 +288,7 @@ struct Tcp
 	}
 	void arm_shadow(Side& s)
 	{
+		poll_read(s);
 		if (plan.c("past_timer", 0) && now_ns() > 1000)
 		{
 			// an application timer whose deadline has already passed: it completes at once and leaves the clock - and with it
@@ -293,6 +351,21 @@ struct Tcp
 			if (g != sp->gen) { ++ctx.handlers; return; } // an earlier connection on this object
 			sp->writer_busy = false;
 			sp->write_outstanding = false;
+			bool const cancelled = sp->expect_write_abort;
+			sp->expect_write_abort = false;
+			if (cancelled && ec == boost::asio::error::operation_aborted)
+			{
+				// our own cancel(): nothing of this write was accepted, offer it again
+				++ctx.handlers;
+				ctx.tr.rec("wrote", {sp->conn, sp->side, ec.value(), 0}, {now_ns(), int64_t(k)});
+				if (k != 0) fail("tcp.write.count", "a cancelled write reported " + std::to_string(k) + " bytes");
+				Elem rest;
+				rest.k = Elem::Write; rest.sizes[0] = sp->cur_n; rest.nbuf = 1; rest.phase = 0;
+				sp->script.push_front(rest);
+				ctx.hit("write_restarted_after_cancel");
+				pump(*sp);
+				return;
+			}
 			on_write(*sp, ec, k, g, false);
 			pump(*sp);
 		});
@@ -429,6 +502,18 @@ struct Tcp
 		if (s.side == 1 && accept_armed[s.conn]) return;
 		ctx.tr.rec("read", {s.conn, s.side, ec.value()}, {now_ns(), int64_t(k)});
 		Side::GenRec const p = peer(s).hist[s.port];
+		{
+			bool const cancelled = s.expect_read_abort;
+			s.expect_read_abort = false;
+			if (cancelled && ec == boost::asio::error::operation_aborted && s.connected && s.sock->is_open())
+			{
+				if (k != 0) fail("tcp.read.count", "a cancelled read reported " + std::to_string(k) + " bytes");
+				ctx.hit("read_restarted_after_cancel");
+				--s.rpos; // the same read again
+				start_read(s);
+				return;
+			}
+		}
 		if (ec)
 		{
 			if (k != 0) fail("tcp.read.count", "a failed read reported " + std::to_string(k) + " bytes");
@@ -541,6 +626,28 @@ struct Tcp
 			{
 				s.sock->open(addrA.is_v4() ? tcp::v4() : tcp::v6(), ec);
 				s.sock->non_blocking(true);
+			}
+			if (decoy && plan.c("abandon", 0))
+			{
+				// a connect that is given up at once; its SYN is on the way, the answer will come back
+				s.sock->async_connect(tcp::endpoint(addrB, 7900), [this](error_code const&) { ++ctx.handlers; });
+				error_code cec;
+				s.sock->cancel(cec);
+				ctx.hit("connect_abandoned");
+				error_code rec;
+				s.sock->remote_endpoint(rec);
+				if (!rec)
+				{
+					// nothing delays packets on this route: the connect was through before it could be cancelled. Leave that
+					// connection the regular way and start over on the same local endpoint
+					error_code lec;
+					tcp::endpoint const le = s.sock->local_endpoint(lec);
+					s.sock->close(cec);
+					s.sock->open(tcp::v4(), cec);
+					s.sock->non_blocking(true);
+					if (!lec) s.sock->bind(le, cec);
+					ctx.hit("connect_abandoned_too_late");
+				}
 			}
 			Side* sp = &s;
 			int const g = s.gen;
@@ -671,6 +778,7 @@ struct Tcp
 			}
 			else if (o.op == "close") { Elem e; e.k = Elem::Close; e.phase = phase; s.script.push_back(e); }
 			else if (o.op == "handoff") { Elem e; e.k = Elem::Handoff; e.phase = phase; s.script.push_back(e); }
+			else if (o.op == "cancel") { Elem e; e.k = Elem::Cancel; e.phase = phase; s.script.push_back(e); }
 			else if (o.op == "pause") { Elem e; e.k = Elem::Pause; e.delay = std::max<int64_t>(1, o.c); e.phase = phase; s.script.push_back(e); }
 			else if (o.op == "reconnect")
 			{
@@ -983,6 +1091,15 @@ struct Tcp
 			if (steps > step_cap && !capped) { capped = true; sim->stop(); }
 		});
 
+		if (plan.c("abandon", 0))
+		{
+			decoy_junk.assign(300, 0xA5);
+			decoy.reset(new tcp::acceptor(*nodeB));
+			decoy->open(tcp::v4());
+			decoy->bind(tcp::endpoint(addrB, 7900));
+			decoy->listen();
+			arm_decoy();
+		}
 		// listen + accept + connect
 		for (int c = 0; c < nconn; ++c)
 		{
@@ -1039,7 +1156,7 @@ struct Tcp
 				for (int sd = 0; sd < 2; ++sd)
 				{
 					Side& s = sides[c][sd];
-					if (s.connected && !s.writer_dead && !s.closed_by_us && s.gen == 1 && s.accepted < s.offered && !ctx.violated)
+					if (s.connected && !s.writer_dead && !s.closed_by_us && !peer(s).closed_by_us && peer(s).gen <= 1 && s.gen == 1 && s.accepted < s.offered && !ctx.violated)
 						fail("tcp.stall.writer", "conn " + std::to_string(c) + " side " + std::to_string(sd) + ": only " + std::to_string(s.accepted)
 							+ " of " + std::to_string(s.offered) + " offered bytes were ever accepted although the simulation is quiescent");
 				}
@@ -1078,6 +1195,7 @@ struct Tcp
 			for (int sd = 0; sd < 2; ++sd) { sides[c][sd].timer.reset(); sides[c][sd].shadow.reset(); sides[c][sd].past.reset(); sides[c][sd].sock.reset(); sides[c][sd].spare.reset(); }
 			acceptors[c].reset();
 		}
+		decoy_socks.clear(); decoy.reset();
 		nodeA.reset(); nodeB.reset();
 		sim.reset();
 		if (c19) { check_capture(); unlink(pcap_path.c_str()); }
@@ -1212,6 +1330,8 @@ struct TcpEngine : Engine
 		p.cfg["shadow_timer"] = rng.chance(0.2) ? 1 : 0;
 		p.cfg["same_port"] = rng.chance(0.1) ? 1 : 0;
 		p.cfg["past_timer"] = rng.chance(0.1) ? 1 : 0;
+		p.cfg["poll_reads"] = rng.chance(0.15) ? 1 : 0;
+		p.cfg["abandon"] = (!c06 && !c19 && rng.chance(0.12)) ? 1 : 0;
 		bool const finite = (c06 && rng.chance(0.7)) || (c05 && rng.chance(0.35));
 		int nconn = 1;
 		if (!finite || !c06) nconn = int(rng.range(1, c20 ? 2 : 3));
@@ -1219,6 +1339,7 @@ struct TcpEngine : Engine
 		// C06: a second connection that carries no payload but is closed and made again while the first one is busy: its
 		// handshake shares the queues with the first connection's segments
 		bool const idle_conn = c06 && rng.chance(0.3);
+		bool const conn1_block = idle_conn && rng.chance(0.5); // its traffic is one scripted exchange (below) instead of random ops
 		if (idle_conn) nconn = 2;
 		p.cfg["conns"] = nconn;
 		int64_t const min_cap = mtu + 40;
@@ -1298,9 +1419,22 @@ struct TcpEngine : Engine
 			int const c = idle_conn ? 0 : int(rng.below(uint64_t(nconn)));
 			int sd = int(rng.below(2));
 			if (one_dir_phases) sd = phase_dir;
-			if (idle_conn && rng.chance(0.12))
+			if (idle_conn && !conn1_block && rng.chance(0.2))
 			{
-				o.op = "reconnect"; o.a = 1; o.c = rng.chance(0.3) ? 0 : rng.logu(1000, 2000000000);
+				// the second connection: a little one-way traffic, now and then handed to another socket object, closed and
+				// made again (on the object that was moved from, when there is one)
+				double const v = rng.unit();
+				if (v < 0.4) { o.op = "w"; o.a = 1; o.b = 0; o.c = int64_t(rng.below(uint64_t(k_nw))); o.d = int64_t(rng.below(6)) & ~int64_t(1); }
+				else if (v < 0.55) { o.op = "handoff"; o.a = 1; o.b = 0; }
+				else { o.op = "reconnect"; o.a = 1; o.c = rng.chance(0.3) ? 0 : rng.logu(1000, 2000000000); }
+				p.ops.push_back(o);
+				continue;
+			}
+			if (c06 && rng.chance(0.04))
+			{
+				// cancel() some time after the writes before it (whatever they left waiting for retransmission stays)
+				Op pz; pz.op = "pause"; pz.a = c; pz.b = sd; pz.c = rng.logu(1000000, 190000000); p.ops.push_back(pz);
+				o.op = "cancel"; o.a = c; o.b = sd;
 				p.ops.push_back(o);
 				continue;
 			}
@@ -1350,6 +1484,22 @@ struct TcpEngine : Engine
 			else if (!c06) { o.op = "reconnect"; o.a = c; o.c = rng.chance(0.5) ? 0 : rng.logu(1000, 1000000000); }
 			else continue;
 			p.ops.push_back(o);
+		}
+		if (conn1_block)
+		{
+			// the second connection in full: the acceptor's side greets, the connector answers, the acceptor's side writes
+			// again, the connector hands its socket over to another object once that is in, closes, connects again on the
+			// object it had moved from, and writes again - all of which has to arrive
+			auto wop = [&](char const* name, int side) {
+				Op w; w.op = name; w.a = 1; w.b = side; w.c = int64_t(rng.below(uint64_t(k_nw))); w.d = int64_t(rng.below(6)) & ~int64_t(1);
+				p.ops.push_back(w);
+			};
+			wop("w", 1);
+			wop("wr", 0);
+			wop("wr", 1);
+			{ Op h; h.op = "handoff"; h.a = 1; h.b = 0; p.ops.push_back(h); }
+			{ Op rc; rc.op = "reconnect"; rc.a = 1; rc.c = rng.chance(0.5) ? 0 : rng.logu(1000, 1000000000); p.ops.push_back(rc); }
+			wop("w", 0);
 		}
 		if (c05 && rng.chance(0.4))
 		{
